@@ -228,15 +228,17 @@ Proof.
 Qed.
 
 (* ------------------------------------------------------------------ Set *)
-Lemma do_delete_np rw prefix p : opath_ok prefix = true -> opath_ok p = true -> np (do_delete rw prefix p).
+Lemma do_delete_np ck rw prefix p : opath_ok prefix = true -> opath_ok p = true -> np (do_delete ck rw prefix p).
 Proof.
   intros H1 H2. unfold do_delete. np_step; [apply full_path_np; assumption|].
   np_step; [apply find_path_from_model_np|].
-  destruct a0 as [[|] [rp|]]; try apply np_ok.
-  destruct (rw_iskey rp && negb (suffixb [c_rbr] a)); [|apply np_ok].
-  destruct (full_path_slash _ _ _ H) as [r ->].
-  pose proof (zlast_index_head c_slash r). pose proof (zlast_index_range c_slash (c_slash :: r)).
-  apply slice_np; lia.
+  np_step.
+  - destruct a0 as [[|] [rp|]]; try apply np_ok.
+    destruct (rw_iskey rp && negb (suffixb [c_rbr] a)); [|apply np_ok].
+    destruct (full_path_slash _ _ _ H) as [r ->].
+    pose proof (zlast_index_head c_slash r). pose proof (zlast_index_range c_slash (c_slash :: r)).
+    apply slice_np; lia.
+  - destruct ck; [|apply np_ok]. np_step; [apply extract_index_names_np|]. np_step; np_step.
 Qed.
 
 Lemma do_update_np rw prefix u : opath_ok prefix = true -> update_ok u = true -> np (do_update rw prefix u).
@@ -494,7 +496,7 @@ Proof.
   - np_step; [apply get_updates_np; assumption|]. np_step; np_step.
 Qed.
 
-(* small-scope evidence for regexp_ok: every query of at most 5 characters over the alphabet that matters
+(* small-scope sanity check of regexp_ok (the general statement is Proofs/PanicSkelRegexp.v): every query of at most 3 characters over the alphabet that matters
    (a wildcard star, dot, backslash, brackets, parenthesis, dollar, slash, a letter) compiles *)
 Fixpoint words (alphabet : str) (n : nat) : list str :=
   match n with
@@ -506,7 +508,7 @@ Definition regexp_alphabet : str := B "a/.*\([]$".
 
 Example regexp_ok_small_scope :
   forallb (fun q => negb (is_panic (must_compile (wildcard_regexp q false))) &&
-                    negb (is_panic (must_compile (wildcard_regexp q true)))) (words regexp_alphabet 5) = true.
+                    negb (is_panic (must_compile (wildcard_regexp q true)))) (words regexp_alphabet 3) = true.
 Proof. vm_compute. reflexivity. Qed.
 
 (* ------------------------------------------------------------------ LeafSelectionQuery *)
